@@ -82,17 +82,28 @@ pub fn flush_log(out: &mut Vec<i64>, locs: &LocMap) {
 }
 
 /// lets every worker run to its end; workers that cannot finish within `patience_ms` are aborted (they unwind)
+/// set when a worker could not be joined (it spins for good inside the code under test, typically a destructor run while
+/// unwinding that waits for an operation another aborted thread left half-done): main() then ends the process after this case
+/// with exit code 75 and the driver feeds the remaining cases to a fresh process
+pub static LEAKED: std::sync::atomic::AtomicBool = std::sync::atomic::AtomicBool::new(false);
+
 pub fn wind_down(handles: Vec<std::thread::JoinHandle<()>>, patience_ms: u64) -> bool {
     if patience_ms == 0 { verif::abort_all(); } else { verif::deactivate(); }
     let deadline = std::time::Instant::now() + std::time::Duration::from_millis(patience_ms);
     let mut all = true;
-    let mut aborted = false;
+    let mut aborted = patience_ms == 0;
+    let mut give_up = std::time::Instant::now() + std::time::Duration::from_millis(patience_ms + 1500);
     for h in handles {
+        let mut leaked = false;
         while !h.is_finished() {
-            if !aborted && std::time::Instant::now() > deadline { verif::abort_all(); aborted = true; all = false; }
+            if !aborted && std::time::Instant::now() > deadline {
+                verif::abort_all(); aborted = true; all = false;
+                give_up = std::time::Instant::now() + std::time::Duration::from_millis(1500);
+            }
+            if aborted && std::time::Instant::now() > give_up { leaked = true; break }
             std::thread::sleep(std::time::Duration::from_micros(200));
         }
-        let _ = h.join();
+        if leaked { LEAKED.store(true, std::sync::atomic::Ordering::SeqCst); all = false; } else { let _ = h.join(); }
     }
     all
 }
